@@ -768,18 +768,19 @@ func TestC05(t *testing.T) {
 	// quick: one 4-8 KB file exhaustively + 3 larger files sampled around the
 	// state boundaries; with several quick shards, shard 0 does the exhaustive
 	// file and the others share the sampled ones. thorough: every shard
-	// enumerates its own 20-40 KB file exhaustively + 2 large sampled files.
+	// enumerates its own 12-27 KB file exhaustively + 1 large sampled file.
 	shard, nshards := ev.Shard()
 	workers := 4
 	nExh, nSamp := 1, 3
-	exhaustive := histParams{minStates: 6, minSize: 4096, maxOps: 2000, persistW: 12, reopen: true, maxRows: 12}
-	sampled := histParams{minStates: 10, minSize: 12000, maxOps: 4000, persistW: 8, reopen: true, longVals: true, maxRows: 25}
+	exhaustive := histParams{minStates: 6, minSize: 4096, maxSize: 8000, maxOps: 2000, persistW: 12, reopen: true, maxRows: 12}
+	sampled := histParams{minStates: 10, minSize: 12000, maxSize: 20000, maxOps: 4000, persistW: 8, reopen: true, longVals: true, maxRows: 25}
 	switch {
 	case ev.Thorough():
 		workers = 1
-		nSamp = 2
-		exhaustive = histParams{minStates: 20, minSize: uint64(20000 + 1300*(shard%16)), maxOps: 20000, persistW: 8, reopen: true, longVals: true, maxRows: 40}
-		sampled.minSize = 60000
+		nSamp = 1
+		size := uint64(12000 + 800*(shard%16))
+		exhaustive = histParams{minStates: 12, minSize: size, maxSize: size + 3000, maxOps: 20000, persistW: 10, reopen: true, longVals: true, maxRows: 40}
+		sampled.minSize, sampled.maxSize = 60000, 80000
 		sampled.maxOps = 40000
 	case nshards > 1 && shard == 0:
 		workers, nSamp = 3, 0
